@@ -450,17 +450,8 @@ type TxPrediction struct {
 func (m *Model) PredictTx(f *TxFacts) TxPrediction {
 	var p TxPrediction
 	s := f.Spec
-	if s.Kind == "raw" || !f.Decodable && !f.IsReplayOf {
+	if s.Kind == "raw" || s.Kind == "replay" || !f.Decodable {
 		p.NoClaim = true
-		return p
-	}
-	if f.IsReplayOf {
-		// the bytes of an earlier tx: rejected iff the index knows the hash
-		if m.TxIndex[f.Hash] {
-			p.MustReject, p.RejectReason, p.RejectProp = true, "replay-of-indexed-tx", "C03"
-		} else {
-			p.NoClaim = true
-		}
 		return p
 	}
 	p.AnteOK = true
@@ -575,6 +566,10 @@ func (m *Model) ApplyTx(f *TxFacts, stage string) {
 			v = &MVal{Acct: s.Acct, Stake: new(big.Int), Consensus: m.kr.Get(s.Acct).Type == "ed"}
 			m.Vals[s.Acct] = v
 			m.EverVal[s.Acct] = true
+			// a validator convicted of double signing is jailed permanently, under whatever record
+			if sg, has := m.Sign[s.Acct]; has && sg.Tombstoned {
+				v.Jailed = true
+			}
 		}
 		m.move(acctKey(s.Acct), ModPool, f.Amount)
 		v.Stake = new(big.Int).Add(v.Stake, f.Amount)
@@ -635,10 +630,6 @@ func (m *Model) EndBlock() []Maturity {
 	sort.Ints(accts)
 	for _, a := range accts {
 		v := m.Vals[a]
-		if v.Stake.Cmp(big.NewInt(m.P.StakeMinimum)) < 0 {
-			m.Desync = "unstaking-validator-below-minimum-at-maturity"
-			continue
-		}
 		m.move(ModPool, acctKey(a), v.Stake)
 		out = append(out, Maturity{Acct: a, Paid: new(big.Int).Set(v.Stake)})
 		delete(m.Vals, a)
